@@ -3,38 +3,49 @@
  */
 
 #include "message.h"
+#include "queue.h"
 #include "stream.h"
 
 extern int mpt_stream_reply(MPT_STRUCT(stream) *srm, size_t len, const void *val, const MPT_STRUCT(message) *msg)
 {
+	MPT_STRUCT(encode_state) state;
+	size_t used;
 	ssize_t ret;
 	
 	if (mpt_stream_flags(&srm->_info) & MPT_STREAMFLAG(MesgActive)) {
 		return MPT_ERROR(BadArgument);
 	}
-	if (len && (ret = mpt_stream_push(srm, len, val)) < 0) {
-		return ret;
+	/* output state without reply data */
+	state = srm->_wd._state;
+	used  = srm->_wd.data.len;
+	
+	if (len) {
+		if ((ret = mpt_stream_push(srm, len, val)) < 0) {
+			goto revert;
+		}
+		if ((size_t) ret < len) {
+			ret = MPT_ERROR(MissingBuffer);
+			goto revert;
+		}
 	}
 	if (msg) {
 		if ((ret = mpt_stream_append(srm, msg)) < 0) {
-			if (len) {
-				mpt_stream_push(srm, 1, 0);
-			}
-			return ret;
+			goto revert;
 		}
-		len += ret;
 		if (ret < (ssize_t) mpt_message_length(msg)) {
-			if (len) {
-				mpt_stream_push(srm, 1, 0);
-			}
-			return MPT_ERROR(MissingBuffer);
+			ret = MPT_ERROR(MissingBuffer);
+			goto revert;
 		}
 	}
 	if ((ret = mpt_stream_push(srm, 0, 0)) < 0) {
-		if (len) {
-			mpt_stream_push(srm, 1, 0);
-		}
-		return ret;
+		goto revert;
 	}
 	return 0;
+	
+	/* drop incomplete reply data */
+revert:
+	srm->_wd._state = state;
+	srm->_wd.data.len = used;
+	srm->_info._fd &= ~MPT_STREAMFLAG(MesgActive);
+	return ret;
 }
